@@ -154,6 +154,34 @@ def run(case, ctx):
                 check(getattr(back, name) == f[name], "scp-roundtrip",
                       "%s: got %r want %r" % (name, getattr(back, name),
                                               f[name]), fields=f)
+    # packets are plain mutable records: one that has been encoded (or
+    # decoded) once, then edited, encodes to the layout of its NEW fields
+    f2 = dict(f)
+    f2["seq"] = (f["seq"] + 1) & 0xffff
+    f2["tag"] = f["tag"] ^ 0x5a
+    f2["dest_x"] = (f["dest_x"] + 3) & 0xff
+    f2["data"] = f["data"][1:] + b"\x7e"
+    if f["arg1"] is not None:
+        f2["arg1"] = f["arg1"] ^ 0x80000001
+    for victim in (pkt, P.SCPPacket.from_bytestring(want, n_args=k)):
+        for name in ("seq", "tag", "dest_x", "data", "arg1"):
+            setattr(victim, name, f2[name])
+        args2 = [f2["arg1"], f2["arg2"], f2["arg3"]]
+        body2 = (f2["cmd_rc"].to_bytes(2, "little") +
+                 f2["seq"].to_bytes(2, "little") +
+                 b"".join(a.to_bytes(4, "little") for a in args2[:k]) +
+                 f2["data"])
+        ctx.hit("edited_packet_encoded")
+        if victim is pkt or (getattr(victim, "arg1") == f2["arg1"] and
+                             [getattr(victim, "arg%d" % i) is not None
+                              for i in (1, 2, 3)] ==
+                             [a is not None for a in args2]):
+            check(bytes(victim.bytestring) == pack_sdp(f2, body2),
+                  "scp-encode-after-edit",
+                  "a packet encoded once and then edited still encodes as "
+                  "%s, its fields now say %s" %
+                  (bytes(victim.bytestring).hex()[:80],
+                   pack_sdp(f2, body2).hex()[:80]), fields=f2)
     d = P.SCPPacket.from_bytestring(want)
     check((d.arg1, d.arg2, d.arg3) ==
           tuple(int.from_bytes(rest[4 * i:4 * i + 4], "little")
